@@ -31,6 +31,9 @@ func (t *c09Task) Run(tid uint64) error {
 	s := t.s
 	s.runs[t.i]++
 	s.running++
+	if s.running > s.maxRun {
+		s.maxRun = s.running
+	}
 	if t.spawn >= 0 {
 		s.tp.AddTask(&c09Task{s, t.spawn, -1})
 	}
